@@ -15,7 +15,8 @@ RULE = (
     "operators incl. chains, and/or with 2-3 operands, conditional expressions, 16 builtins, constant-receiver "
     "methods) and the depth-2 layer (one operand of depth 1 over a 6-atom alphabet) is given to core.literal_value "
     "and to eval(); consumers: each depth-1 expression is put into each consumer position (if / while / and-or "
-    "operand / conditional expression; thorough: assert, comprehension filter, for-iterable, and the depth-2 layer) "
+    "operand / conditional expression; thorough: assert, comprehension filter, for-iterable; the depth-2 layer in if / while / conditional "
+    "expression for expressions that do not raise under the driver values) "
     "of a closed driver program that runs it under x in {0, 1, 'a', None}, the five consumer rules (quick: and "
     "format_code on the small alphabet; thorough: format_code on all) rewrite it, original and result are executed. "
     "non-trivial = literal_value returned a value / the consumer changed the text"
@@ -51,7 +52,7 @@ def units(tier):
         yield {"t": "consumer", "exprs": ch, "fc": [e for e in ch if tier == "thorough" or e in small]}
     if tier == "thorough":
         for ch in _chunks(exprs.depth2(tier), 24):
-            yield {"t": "consumer", "exprs": ch, "fc": []}
+            yield {"t": "consumer", "exprs": ch, "fc": [], "depth2": True}
 
 
 # ------------------------------------------------------------------------------------------------
@@ -180,7 +181,17 @@ def run_unit(unit):
             res["viol"].extend(v)
         return res
     positions = POSITIONS_QUICK if tier == "quick" else POSITIONS_THOROUGH
+    if unit.get("depth2"):
+        # depth 2: condition contexts only, and only expressions that evaluate without raising under every driver
+        # value (the depth-1 layer already shows, bounded, what the boolean simplifier does to raising operands and
+        # to and/or in value position; at depth 2 those two known findings would only be multiplied)
+        positions = ["if", "while", "ifexp"]
     for e in unit["exprs"]:
+        if unit.get("depth2"):
+            probe = progs.run_prog(consumer_program(e, "ifexp"))
+            if probe[0] != "ok" or any(ln and ln[0].isupper() and ln.endswith(("Error", "Exit", "Exception")) for ln in probe[1].splitlines()):
+                st["depth2_raising_not_explored"] = st.get("depth2_raising_not_explored", 0) + 1
+                continue
         for pos in positions:
             entries = list(CONSUMERS) + (["format_code"] if e in unit["fc"] and pos in ("if", "andor") else [])
             for entry in entries:
